@@ -707,6 +707,11 @@ def refine_by_annotation(finfo: FuncInfo, v):
 
 
 def return_type(finfo: FuncInfo) -> T.Ty:
+    # a contract may re-type the result where the annotation says less than the code does (types={"return": "Optional[X]"} on a
+    # function annotated `-> X` that returns None when X is missing)
+    con = REG.contracts.get(finfo.key)
+    if con is not None and "return" in con.types:
+        return T.parse_ann(ast.parse(con.types["return"], mode="eval").body, finfo.module, finfo.cls)
     if finfo.node.returns is None:
         return T.ANY
     return T.parse_ann(finfo.node.returns, finfo.module, finfo.cls)
